@@ -1,7 +1,7 @@
 """Rules over the local scope stack and bounded containers (C09, C10)."""
 import re
 
-from .core import (Prov, bool_cond_edges, callee_is, discr_cond_edges, has_origin, inline_calls, origin_strs, result_switches,
+from .core import (Prov, bool_cond_edges, callee_is, discr_cond_edges, equal_edges, has_origin, inline_calls, origin_strs, result_switches,
                    root_local, sites_star, first_switches)
 
 STACK = "fastrace::local::local_span_stack::LocalSpanStack::"
@@ -232,10 +232,8 @@ def rule_epochs(ctx, facts, rule):
         if fn is None:
             continue
 
-        def epoch_eq(o):
-            return any(v[0] == "binop" and v[1] == "Eq" for v in o.via) and o.path and o.path[-1] in (".epoch", ".span_line_epoch") or \
-                (o.kind == "param" and o.key == 2 and o.path == () and any(v[0] == "binop" and v[1] == "Eq" for v in o.via))
-        e = bool_cond_edges(fn, prov, epoch_eq, True)
+        e = equal_edges(fn, prov, lambda o: (bool(o.path) and o.path[-1] in (".epoch", ".span_line_epoch")) or
+                        (o.kind == "param" and o.key == 2 and o.path == ()))
         if callee:
             sites = [b for b in fn.calls(lambda t: t["callee"] == callee) if not fn.blocks[b]["cleanup"]]
         else:
@@ -333,7 +331,7 @@ def rule_epoch_representation(ctx, facts, rule):
             if "span_line_epoch" not in f:
                 continue
             n += 1
-            src = prov.of_operand(fn, f["span_line_epoch"])
+            src = prov.resolve_upvars(fn, prov.of_operand(fn, f["span_line_epoch"]))
             casts = [v for o in src for v in o.via if v[0] == "cast"]
             from_epoch = any(o.path and o.path[-1] in (".epoch", ".next_span_line_epoch") for o in src)
             ctx.check(from_epoch and not casts, rule, fn.path, fn.loc(b), "%s.span_line_epoch is the scope's epoch, copied without a cast" % a.rsplit("::", 1)[1],
